@@ -75,6 +75,7 @@ func cmdFunc(args []string) {
 	verbose := fs.Bool("v", false, "")
 	stats := fs.Bool("stats", false, "")
 	model := fs.Bool("model", false, "print counterexample models")
+	noretry := fs.Bool("noretry", false, "development: no retry portfolio for undecided obligations")
 	fs.Parse(args)
 	P, err := loadProgram(*repo)
 	if err != nil {
@@ -84,7 +85,7 @@ func cmdFunc(args []string) {
 		fmt.Println("contract error:", err)
 		os.Exit(2)
 	}
-	opts := &VerifyOpts{WorkDir: "/verif/.work/func", TimeoutS: *to, Agree: 1}
+	opts := &VerifyOpts{WorkDir: "/verif/.work/func", TimeoutS: *to, Agree: 1, NoRetry: *noretry}
 	if kf, err := loadFindings("/verif/known_findings.json"); err == nil {
 		for _, f := range kf.Findings {
 			if f.Status == "open" && f.Bounded == "" {
